@@ -281,11 +281,10 @@ def chacha_history(nlen, hist, acc, name):
                 if res[0] == "ok":
                     ref.pos, ref.failed_at = arg, None
                 else:
-                    # refused one block early (no reuse, not silent: observation only) -- but the stream position after
-                    # this refused seek is not defined by anything, so later data is judged like data after an
-                    # exhaustion failure: it must never be wrapped-around keystream
-                    acc.observe("%s: seek into the last block of the counter range is refused (one block early)" % name)
-                    ref.failed_at = ref.pos
+                    # refused one block early: the limit is to be enforced "at the point where a block would repeat",
+                    # and the last block of the range has not been used
+                    return viol("last-block-refused", "seek(%s) into the last block of the counter range is refused with %s "
+                                "although no block would repeat" % (_fmtpos(arg, ref.W), res[1]))
             else:
                 if res[0] != "ok":
                     return viol("seek-in-range-refused", "seek(%d) refused with %s" % (arg, res[1]))
@@ -325,8 +324,8 @@ def chacha_history(nlen, hist, acc, name):
                         return viol("wrong-keystream", "encrypt(%d) at %s returned wrong keystream" % (n, _fmtpos(ref.pos, ref.W)))
                     ref.pos += n
                 else:
-                    acc.observe("%s: the last block of the counter range cannot be produced (exception one block early)" % name)
-                    ref.failed_at = ref.pos
+                    return viol("last-block-refused", "encrypt(%d) at %s only needs blocks up to the last one of the counter "
+                                "range but raised %s (no block would repeat)" % (n, _fmtpos(ref.pos, ref.W), res[1]))
             else:
                 acc.seen("classes", (name, "encrypt", "in", res[0] if res[0] == "ok" else "exc"))
                 if res[0] != "ok":
@@ -585,8 +584,8 @@ def run(ctx):
                "crossing is checked there), GCM 2^39-256 bits, Salsa20 2^64 blocks, ChaCha20 without seek()")
     ctx.assume("CTR counter blocks are recovered with the library's own ECB decryption and cross-checked with the reference "
                "cipher on the first and last blocks of every call")
-    ctx.assume("an exception one block before the true end of the ChaCha20 counter range is logged as an observation "
-               "(no reuse, not silent), not as a violation")
+    ctx.assume("the last block of the ChaCha20 counter range must be usable: the limit is enforced at the point where a "
+               "block would repeat, not one block early")
 
 
 def replay(case, acc):
